@@ -199,6 +199,17 @@ func (p *Prog) commonDriver(fs []*ssa.Function) *ssa.Function {
 	return nil
 }
 
+// RCalls lists the calls made by named function f and by the local function literals it only calls itself.
+func (p *Prog) RCalls(f *ssa.Function, names ...string) []ssa.CallInstruction {
+	out := Calls(f, names...)
+	for _, a := range f.AnonFuncs {
+		if p.localClosure(a) {
+			out = append(out, Calls(a, names...)...)
+		}
+	}
+	return out
+}
+
 func (p *Prog) named(fs []*ssa.Function) []*ssa.Function {
 	var out []*ssa.Function
 	for _, f := range fs {
@@ -299,7 +310,7 @@ func (p *Prog) resolveRole(role string) (*ssa.Function, error) {
 		var c []*ssa.Function
 		ib, _ := p.Role("inputBuilder")
 		for _, f := range arg {
-			if len(Calls(f, GRemove)) > 0 {
+			if len(p.RCalls(f, GRemove)) > 0 {
 				c = append(c, f)
 			}
 			if ib != nil && f != ib && p.callsFn(f, ib) {
@@ -311,7 +322,7 @@ func (p *Prog) resolveRole(role string) (*ssa.Function, error) {
 	case "inputBuilder":
 		var c []*ssa.Function
 		for _, f := range arg {
-			if len(Calls(f, GAddOverwrite)) > 0 {
+			if len(p.RCalls(f, GAddOverwrite)) > 0 {
 				c = append(c, f)
 			}
 		}
